@@ -1325,7 +1325,7 @@ pub fn c15(scn: &Scenario, tr: &[Ev]) -> Vec<Violation> {
     // no residue
     let last_graph = tr.iter().rev().find_map(|e| if let EvK::Graph { edges } = &e.k { Some(edges.clone()) } else { None });
     if let Some(g) = last_graph {
-        let pending = asks.iter().any(|(k, _, _)| ix.ops[*k].end.is_none() && !deadlock_panicked(&ix, &ix.ops[*k]));
+        let pending = asks.iter().any(|(k, a, _)| ix.ops[*k].end.is_none() && !deadlock_panicked(&ix, &ix.ops[*k]) && ask_live_until(&ix, &ix.ops[*k], *a) >= tr.len());
         if !g.is_empty() && !pending {
             v(&mut out, "C15 no residue", format!("every ask has finished but the wait-for graph still holds {g:?}"));
         }
